@@ -75,6 +75,23 @@ def protocol(ctx, R):
         if pb is None or vt is None:
             continue
         eb = ExprBuilder(pb)
+        # the field of the tracker that holds the batch monitor: the one predict stores a fresh Mutex into (private
+        # field: its name is discovered, not assumed)
+        MON = set()
+        for i_ in sorted(pb.live_blocks()):
+            for si_, s_ in enumerate(pb.blocks[i_]['st']):
+                if s_['k'] == 'assign' and s_['lhs']['l'] == 1 and s_['lhs']['p'] and \
+                        isinstance(s_['lhs']['p'][-1], dict) and s_['lhs']['p'][-1].get('n'):
+                    v_ = eb._rvalue(s_['rv'], (), 0, (i_, si_))
+                    if any(x.kind == 'call' and x.name == 'std::sync::Mutex::new' for x in v_.walk()):
+                        MON.add(s_['lhs']['p'][-1]['n'])
+        if not MON:
+            ctx.fail(R, pb, tname + ':monitor=batch_size()', 'ANCHOR-MISSING: predict does not store a new batch '
+                     'monitor (a Mutex-protected count) in the tracker')
+            continue
+
+        def is_mon(e, MON=MON):
+            return any(e.has_field(m_) for m_ in MON)
         # ---- wait on the previous monitor
         ww = pb.find_calls('std::sync::Condvar::wait_while')
         plain = pb.find_calls('std::sync::Condvar::wait')
@@ -127,9 +144,9 @@ def protocol(ctx, R):
                 if not every_path_passes(pb, 0, c.bb, [wbb]):
                     # allowed only if the bypass is exactly the `self.monitor is None` branch
                     byp = [k for k in path_conditions(pb, wbb) if k.kind == 'discr' and k.variants == {'Some'} and
-                           k.expr.has_field('monitor')]
+                           is_mon(k.expr)]
                     others = [k for k in path_conditions(pb, wbb) if not (k.kind == 'discr' and k.variants == {'Some'}
-                                                                          and k.expr.has_field('monitor'))]
+                                                                          and is_mon(k.expr))]
                     okd = okd and bool(byp) and not others
         ctx.check(okd, R, pb, tname + ':wait-precedes-epoch/distances/jobs', '',
                   'epoch advance, distance queries or job submission can happen before the previous batch was waited '
@@ -141,7 +158,7 @@ def protocol(ctx, R):
         for i in sorted(pb.live_blocks()):
             for si, s in enumerate(pb.blocks[i]['st']):
                 if s['k'] == 'assign' and s['lhs']['p'] and isinstance(s['lhs']['p'][-1], dict) and \
-                        s['lhs']['p'][-1].get('n') == 'monitor' and s['lhs']['l'] == 1:
+                        s['lhs']['p'][-1].get('n') in MON and s['lhs']['l'] == 1:
                     v = eb._rvalue(s['rv'], (), 0, (i, si))
                     detail = repr(v)[:140]
                     mn = [x for x in v.walk() if x.kind == 'call' and x.name == 'std::sync::Mutex::new']
@@ -180,21 +197,35 @@ def protocol(ctx, R):
         # job payload: monitor = the new monitor, channel = request sender, tracks = candidates of this scene
         if jobs:
             a = sent_agg(pb, eb, jobs[0], 'VotingCommands::Distances')
-            m = dict(zip(a.extra['fields'], a.args))
+            # the payload values, however the job is packaged (struct variant, tuple variant around a job struct):
+            # recognised by what they are, not by the names of the (private) fields that carry them
+            leaves = []
+
+            def flat_payload(x, depth=0):
+                x2 = x.strip() if x.kind == 'call' and not x.proj else x
+                if x2.kind == 'agg' and not x2.proj and depth < 3 and isinstance(x2.extra, dict) and \
+                        x2.extra.get('ak') in ('adt', 'tuple') and not x2.name.startswith('std::'):
+                    for y in x2.args:
+                        flat_payload(y, depth + 1)
+                else:
+                    leaves.append(x)
+            for y in a.args:
+                flat_payload(y)
             n += 1
             # "this batch's monitor": self.monitor as set by this call, or the very Arc that this call stores there
             stored = []
             for i_ in sorted(pb.live_blocks()):
                 for si_, s_ in enumerate(pb.blocks[i_]['st']):
                     if s_['k'] == 'assign' and s_['lhs']['l'] == 1 and any(
-                            isinstance(p_, dict) and p_.get('n') == 'monitor' for p_ in s_['lhs']['p']):
+                            isinstance(p_, dict) and p_.get('n') in MON for p_ in s_['lhs']['p']):
                         re_ = eb._rvalue(s_['rv'], (), 0, (i_, si_))
                         stored += [x.extra for x in re_.walk() if x.kind == 'call' and x.name.endswith('Arc::new')]
-            mon_ok = m['monitor'].has_field('monitor') or any(
+            mon_ok = any(is_mon(l_) or any(
                 x.kind == 'call' and x.name.endswith('Arc::new') and any(x.extra is y for y in stored)
-                for x in m['monitor'].walk())
-            okp = mon_ok and m['channel'].has_call('get_sender') and \
-                m['distances'].has_call('foreign_track_distances') and m['tracks'].has_call('collect')
+                for x in l_.walk()) for l_ in leaves)
+            okp = mon_ok and any(l_.has_call('get_sender') for l_ in leaves) and \
+                any(l_.has_call('foreign_track_distances') for l_ in leaves) and \
+                any(l_.has_call('collect') for l_ in leaves)
             ctx.check(okp, R, pb, tname + ':job-payload', '', 'the voting job does not carry (this batch\'s monitor, '
                       'the request\'s result sender, the distances of this scene, the candidates of this scene)')
             # round-robin over existing threads
@@ -238,7 +269,8 @@ def protocol(ctx, R):
                 if s['k'] == 'assign' and s['lhs']['p'] == ['*'] and vt.locals[s['lhs']['l']] == '&mut usize':
                     tgt = ebv.place(s['lhs']['l'], (), 0, (i, si))
                     val = ebv._rvalue(s['rv'], (), 0, (i, si))
-                    if tgt.has_call('lock') and tgt.has_field('monitor'):
+                    # the count of the monitor that came with the job (the only Mutex<usize> a job carries)
+                    if tgt.has_call('lock') and tgt.has_call('recv'):
                         decs.append((i, val, s['ln']))
         r = count_on_paths(vt, arms['Distances'], ends, [d[0] for d in decs])
         n += 1
@@ -252,7 +284,7 @@ def protocol(ctx, R):
         okn = bool(decs) and bool(notes) and any(vt.postdominates(c.bb, decs[0][0]) or count_on_paths(
             vt, decs[0][0], ends, [c.bb]) == (1, 1) for c in notes)
         if okn:
-            okn = any(ebv.arg(c, 0).has_field('monitor') for c in notes)
+            okn = any(ebv.arg(c, 0).has_call('recv') for c in notes)
         ctx.check(okn, R, vt, tname + ':decrement-followed-by-notify', '',
                   'the decrement of the batch monitor is not followed by a notify on the monitor\'s condvar on every '
                   'path: a waiting predict is never woken')
@@ -413,6 +445,10 @@ def op_multiset(F, bodies):
             consts = []
             for i in range(len(c.args)):
                 e = eb.arg(c, i)
+                if e.kind == 'const' and e.const.get('item'):
+                    # a named constant stands for its value (`FEATURE_CLASS` and `0` are the same argument)
+                    from lib import resolve_const_item
+                    e = resolve_const_item(F, e)
                 if e.kind == 'const' and 'fn' not in e.const:
                     consts.append('%d=%s' % (i, e.const.get('item') or e.const.get('v')))
                 elif e.kind == 'agg' and e.name.endswith('Option::None'):
